@@ -305,7 +305,8 @@ class FnTr:
         self.aux = []          # auxiliary loop definitions (text)
         self.tmp = 0
         self.nloop = 0
-        self.guard = []        # path condition while translating the guarded part of ?: && ||
+        self.guard = []        # path condition while translating the guarded part of ?: && || / a merged `if`
+        self.gw_depth = 0      # the first gw_depth guards come from merged `if` statements: writes allowed under them
         self.loopstack = []
         self.used_fields = unit.used_fields
         self.notes = []
@@ -738,17 +739,18 @@ class FnTr:
         return V('strAt %s %s' % (scode, i), ('s', 8))
 
     def write_lv(self, lv, val, out):
+        g = None
         if self.guard:
-            raise Unsupported('side effect under a short-circuit / conditional operator')
-        if lv[0] == 'var':
+            if len(self.guard) != self.gw_depth:
+                raise Unsupported('side effect under a short-circuit / conditional operator')
+            g = self.gprefix()
+        if lv[0] in ('var', 'deref'):
             v = lv[1]
-            self.let(out, v.name, v.ty, val.code)
+            self.let(out, v.name, v.ty, val.code if g is None else 'if %s then %s else %s' % (g, val.code, v.name))
         elif lv[0] == 'field':
             v = lv[1]
-            out.append('let %s : %s := { %s with %s := %s }' % (v.name, lean_ty(v.ty), v.name, lname(lv[2]), val.code))
-        elif lv[0] == 'deref':
-            v = lv[1]
-            self.let(out, v.name, v.ty, val.code)
+            upd = '{ %s with %s := %s }' % (v.name, lname(lv[2]), val.code)
+            out.append('let %s : %s := %s' % (v.name, lean_ty(v.ty), upd if g is None else 'if %s then %s else %s' % (g, upd, v.name)))
         elif lv[0] == 'global':
             raise Unsupported('assignment to a global variable')
         else:
@@ -1284,6 +1286,10 @@ class FnTr:
         a_fall = falls(A)
         b_fall = falls(B) if B is not None else True
         dead = lambda e: ['none /- unreachable -/']
+        if not self.cond_effectful(C) and not a_ex and not b_ex and self.simple_branch(A) and self.simple_branch(B):
+            out = []
+            self.guarded_if(s, env, out)
+            return out + k(env)
         rest = k(env)
         k = lambda e: list(rest)
         if not self.cond_effectful(C) and not a_ex and not b_ex and len(rest) > 2:
@@ -1302,6 +1308,71 @@ class FnTr:
             raise Unsupported('irregular control flow (a large continuation would have to be duplicated)')
         return self.branch(C, env, lambda: self.stmt(A, env, lambda e: list(rest)),
                            lambda: (self.stmt(B, env, lambda e: list(rest)) if B is not None else list(rest)))
+
+    # ----- `if` whose arms only assign: flat, guarded translation (the arms' bindings are emitted one after the
+    #       other; every write becomes `x := if <path condition> then <new> else x`, every check is guarded)
+    def simple_branch(self, n):
+        if n is None:
+            return True
+        k = n.get('kind')
+        if k == 'CompoundStmt':
+            return all(self.simple_branch(c) for c in kids(n))
+        if k == 'NullStmt':
+            return True
+        if k == 'IfStmt':
+            ks = kids(n)
+            return not self.cond_effectful(ks[0]) and all(self.simple_branch(c) for c in ks[1:])
+        if k.endswith('Stmt'):
+            return False
+        for x in walk(n):
+            if x.get('kind') == 'CallExpr':
+                try:
+                    cn = self.callee_name(x)
+                except Unsupported:
+                    return False
+                if cn in self.unit.fninfo:
+                    return False
+            if x.get('kind') == 'UnaryOperator' and x.get('opcode') in ('++', '--'):
+                t = self.tu.ty(x['type'])
+                if t[0] == 'ptr':
+                    return False
+        return True
+
+    def guarded_stmt(self, n, env, out):
+        k = n.get('kind')
+        if k == 'CompoundStmt':
+            for c in kids(n):
+                self.guarded_stmt(c, env, out)
+        elif k == 'NullStmt':
+            pass
+        elif k == 'IfStmt':
+            self.guarded_if(n, env, out)
+        else:
+            self.ex(n, env, out, False)
+
+    def guarded_if(self, s, env, out):
+        ks = kids(s)
+        C, A = ks[0], ks[1]
+        B = ks[2] if len(ks) > 2 else None
+        c = self.cond(C, env, out)
+        if c == 'True':
+            return self.guarded_stmt(A, env, out)
+        if c == 'False':
+            return self.guarded_stmt(B, env, out) if B is not None else None
+        cv = self.fresh('c')
+        out.append('let %s : Bool := decide (%s)' % (cv, c))
+        if len(self.guard) != self.gw_depth:
+            raise Unsupported('internal: merged if under a short-circuit')
+        for (arm, val) in ((A, 'true'), (B, 'false')):
+            if arm is None:
+                continue
+            self.guard.append('%s = %s' % (cv, val))
+            self.gw_depth += 1
+            try:
+                self.guarded_stmt(arm, env, out)
+            finally:
+                self.guard.pop()
+                self.gw_depth -= 1
 
     def merge_if(self, C, A, B, env, k, mvars):
         out = []
